@@ -269,6 +269,9 @@ public:
         }
 
         for (size_t i = 0; i < rank; i++) {
+            if (rhs.dims[i] == 0) {
+                throw std::domain_error("NDSize: division by zero");
+            }
             dims[i] /= rhs.dims[i];
         }
 
